@@ -15,6 +15,25 @@ fn show_kv(v: Option<(u64, u64)>) -> String {
     }
 }
 
+/// Abstract specification used as a monitor on the implementation's own trace (independent of the
+/// Lean model's slot/epoch bookkeeping): the multiset of queued entries with their insertion rank.
+#[derive(Default)]
+struct Spec {
+    seq: u64,
+    present: Vec<(u64, u64, u64)>,                                   // (key, insertion rank, value)
+    issued: std::collections::HashMap<(u64, u64), (u64, u64, u64)>, // raw key -> entry
+}
+impl Spec {
+    fn min(&self) -> Option<(u64, u64, u64)> {
+        self.present.iter().copied().min()
+    }
+    fn remove(&mut self, e: (u64, u64, u64)) {
+        if let Some(p) = self.present.iter().position(|x| *x == e) {
+            self.present.remove(p);
+        }
+    }
+}
+
 enum St {
     None,
     Pq(VPriorityQueue),
@@ -164,6 +183,8 @@ impl Engine for Pq {
         let mut keys_in: std::collections::HashMap<u64, u64> = Default::default();
         let mut ext_hit = 0;
         let mut ext_miss = 0;
+        let mut spec = Spec::default();
+        let mut mon: Vec<(String, String)> = Vec::new();
         for l in lines {
             let w: Vec<&str> = l.split_whitespace().collect();
             let r = std::panic::catch_unwind(std::panic::AssertUnwindSafe(|| match (w.as_slice(), &mut st) {
@@ -228,7 +249,63 @@ impl Engine for Pq {
                 }
                 _ => "bad-op".into(),
             }));
-            out.resp.push(r.unwrap_or_else(|_| "panic".into()));
+            let r = r.unwrap_or_else(|_| "panic".into());
+            // ---- monitor: the statement of C20 evaluated on the implementation's own responses
+            if mon.is_empty() {
+                let rw: Vec<&str> = r.split_whitespace().collect();
+                match w.as_slice() {
+                    ["case", ..] => spec = Spec::default(),
+                    ["ins", k, v] => {
+                        let e = (k.parse().unwrap(), spec.seq, v.parse().unwrap());
+                        spec.seq += 1;
+                        spec.present.push(e);
+                        if let ["key", i, ep] = rw.as_slice() {
+                            let key = (i.parse().unwrap(), ep.parse().unwrap());
+                            if let Some(old) = spec.issued.insert(key, e) {
+                                let _ = old;
+                                mon.push(("C20".into(), format!("insert key {key:?} was issued twice (request `{l}`)")));
+                            }
+                        }
+                    }
+                    ["pull"] | ["peek"] | ["peekkey"] => {
+                        let exp = spec.min();
+                        let got_ok = match (exp, rw.as_slice()) {
+                            (None, ["none"]) => true,
+                            (Some((k, _, v)), ["some", gk, gv]) => gk.parse() == Ok(k) && gv.parse() == Ok(v),
+                            (Some((k, _, _)), ["some", gk]) => gk.parse() == Ok(k),
+                            _ => false,
+                        };
+                        if !got_ok {
+                            mon.push(("C20".into(), format!("`{l}` returned `{r}` but the smallest key / first inserted entry is {exp:?}")));
+                        } else if w[0] == "pull" {
+                            if let Some(e) = exp {
+                                spec.remove(e);
+                            }
+                        }
+                    }
+                    ["ext", i, ep] => {
+                        let key: (u64, u64) = (i.parse().unwrap(), ep.parse().unwrap());
+                        let own = spec.issued.get(&key).copied().filter(|e| spec.present.contains(e));
+                        let got_ok = match (own, rw.as_slice()) {
+                            (None, ["none"]) => true,
+                            (Some((k, _, v)), ["some", gk, gv]) => gk.parse() == Ok(k) && gv.parse() == Ok(v),
+                            _ => false,
+                        };
+                        if !got_ok {
+                            mon.push(("C20".into(), format!("`{l}` returned `{r}` but this key designates {own:?} (entry it was issued for, if still queued)")));
+                        } else if let Some(e) = own {
+                            spec.remove(e);
+                        }
+                    }
+                    ["len"] => {
+                        if r != format!("len {}", spec.present.len()) {
+                            mon.push(("C20".into(), format!("`len` returned `{r}` with {} entries queued", spec.present.len())));
+                        }
+                    }
+                    _ => {}
+                }
+            }
+            out.resp.push(r);
         }
         match st {
             St::Pq(_) => out.tags.push("pq".into()),
@@ -244,6 +321,7 @@ impl Engine for Pq {
         if ext_miss > 0 {
             out.tags.push("extract-miss(stale/forged)".into());
         }
+        out.monitor = mon;
         out.nontrivial = ties || (ext_hit > 0 && ext_miss > 0);
         out
     }
